@@ -17,12 +17,12 @@ package keeper
 //@
 //@ func (k Keeper) checkIfPayloadLinkExists(ctx, key) (res)
 //@   ensures res == !linkPresent(k, key)
-//@   prop C15
+//@   prop C15 C20
 //@ func (k Keeper) AppendPayloadLink(ctx, key, value) (err)
 //@   modifies $kvHas, $kvVal
 //@   ensures err == nil && linkPresent(k, key) && linkValue(k, key) == value
 //@   ensures forall s: str, q: str :: {$kvHas[s][q]} !(s == storeOf(k.storeKey) && q == linkKey(key)) ==> $kvHas[s][q] == old($kvHas[s][q]) && $kvVal[s][q] == old($kvVal[s][q])
-//@   prop C15
+//@   prop C15 C20
 //@ func (k msgServer) PublishReferencePayloadLink(goCtx, msg) (resp, err)
 //@   requires msg != nil
 //@   modifies $kvHas, $kvVal
@@ -30,7 +30,7 @@ package keeper
 //@   ensures old(linkPresent(k.Keeper, msg.Key)) ==> err != nil
 //@   ensures err != nil ==> $kvHas == old($kvHas) && $kvVal == old($kvVal)
 //@   ensures linksPreserved(k.Keeper)
-//@   prop C15
+//@   prop C15 C20
 //@
 //@ // ---- C15: stored signatures and verification ----
 //@ pred sigPresent(k, q) = $kvHas[storeOf(k.storeKey)][sigKey(q)]
@@ -40,23 +40,23 @@ package keeper
 //@   ensures ts == signature.Timestamp && sigPresent(k, storageKey)
 //@     && sigBytes(k, storageKey) == encOf("types.Signature", signature.Signature, signature.Algorithm, signature.Certificate, signature.Timestamp)
 //@   ensures forall s: str, q: str :: {$kvHas[s][q]} !(s == storeOf(k.storeKey) && q == sigKey(storageKey)) ==> $kvHas[s][q] == old($kvHas[s][q]) && $kvVal[s][q] == old($kvVal[s][q])
-//@   prop C15
+//@   prop C15 C20
 //@ func (k Keeper) GetSignature(ctx, storageKey) (sig, err)
 //@   ensures (err == nil) == sigPresent(k, storageKey)
 //@   ensures err == nil ==> sig != nil && encOf("types.Signature", sig.Signature, sig.Algorithm, sig.Certificate, sig.Timestamp) == sigBytes(k, storageKey)
-//@   prop C15
+//@   prop C15 C20
 //@ func (k Keeper) GetPayloadLink(ctx, referenceID) (link, err)
 //@   ensures (err == nil) == linkPresent(k, sha256hex(referenceID))
 //@   ensures err == nil ==> link == linkValue(k, sha256hex(referenceID))
-//@   prop C15
+//@   prop C15 C20
 //@ func (k Keeper) CreateStorageKey(goCtx, req) (resp, err)
 //@   ensures (err == nil) == (req != nil && len(req.ReferenceId) == 64 && len(req.TargetAccAddress) != 0)
 //@   ensures err == nil ==> resp != nil && resp.StorageKey == sha256hex(req.TargetAccAddress + ":" + req.ReferenceId)
-//@   prop C15
+//@   prop C15 C20
 //@ func (k Keeper) isValidSignature(goCtx, targetAccAddress, signaturePayload, signature, signatureAlgorithm, certificate) (err)
 //@   ensures (err == nil) == (b64ok(signature) && algKnown(signatureAlgorithm) && certOk(certificate)
 //@     && sigVerifies(certificate, algOf(signatureAlgorithm), signaturePayload, b64dec(signature)))
-//@   prop C15
+//@   prop C15 C20
 //@ // verification: valid exactly when the STORED signature verifies under the STORED certificate and algorithm over
 //@ // sha256(address:referenceId:STORED link); the answer carries the stored signature, algorithm, certificate, timestamp
 //@ func (k Keeper) VerifySignature(goCtx, req) (resp, err)
@@ -72,13 +72,13 @@ package keeper
 //@      forall sg: str, al: str, ce: str, ts: str :: {encOf("types.Signature", sg, al, ce, ts)} encOf("types.Signature", sg, al, ce, ts) == sb ==>
 //@        ((err == nil) == (b64ok(sg) && algKnown(al) && certOk(ce) && sigVerifies(ce, algOf(al),
 //@           sha256hex(req.TargetAccAddress + ":" + req.ReferenceId + ":" + linkValue(k, sha256hex(req.ReferenceId))), b64dec(sg)))))
-//@   prop C15
+//@   prop C15 C20
 //@ func (k msgServer) StoreSignature(goCtx, msg) (resp, err)
 //@   requires msg != nil
 //@   modifies $kvHas, $kvVal
 //@   ensures linksPreserved(k.Keeper)
 //@   ensures err != nil ==> $kvHas == old($kvHas) && $kvVal == old($kvVal)
-//@   prop C15
+//@   prop C15 C20
 //@
 //@ // ---- C09: account creation never touches an existing account ----
 //@ func (k msgServer) CreateAccount(goCtx, msg) (resp, err)
@@ -87,7 +87,21 @@ package keeper
 //@   ensures existingAccountsUntouched()
 //@   ensures err == nil ==> old($accTag[fromBech32(msg.AccAddressString)]) == 0 && $accTag[fromBech32(msg.AccAddressString)] == accType("base")
 //@   ensures $kvHas == old($kvHas) && $kvVal == old($kvVal)
-//@   prop C09 C15
+//@   prop C09 C15 C20
+
+//@ // ---- C20: entry points under the no-panic sweep (no functional claim here: they must not panic for any field values) ----
+//@ func (k Keeper) CreateReferenceId(goCtx, req) (r0, r1)
+//@   prop C20
+//@ func (k Keeper) CreateReferencePayloadLink(goCtx, req) (r0, r1)
+//@   prop C20
+//@ func (k Keeper) GetAccountInfo(goCtx, req) (r0, r1)
+//@   prop C20
+//@ func (k Keeper) GetReferencePayloadLink(goCtx, req) (r0, r1)
+//@   prop C20
+//@ func (k Keeper) Params(c, req) (r0, r1)
+//@   prop C20
+//@ func (k Keeper) VerifyReferencePayloadLink(goCtx, req) (r0, r1)
+//@   prop C20
 
 //@ // ---- declared effects (checked per call instruction by the effect checker; anything not listed is effect-free) ----
 //@ effects Keeper.CreateReferenceId nondet.rand
